@@ -37,3 +37,15 @@ Proof. exact drop_no_change. Qed.
 Theorem C06_op_no_commit_change : forall d t o, d_committed (fst (step d (COp t o))) = d_committed d.
 Proof. exact op_no_commit_change. Qed.
 Print Assumptions C06_op_no_commit_change.
+
+(* ---- engine model: closing and reopening changes neither the stored data nor its meaning, and without open readers it is
+   invisible to the next writer ---- *)
+From Jamm Require Bytes Engine EngineAbs FreelistFacts EngineOwnDefs EngineNoLeak EngineReopen.
+Theorem C06_engine_reopen_is_invisible : forall (st : Engine.db) (ops : list Engine.op) (ord : list Bytes.bytes),
+  FreelistFacts.asc (Engine.d_free st) -> EngineOwnDefs.pend_le st -> EngineNoLeak.flids_ok st ->
+  Engine.run_tx (Engine.reopen_db st) ops ord = Engine.run_tx st ops ord.
+Proof. exact EngineReopen.run_tx_reopen. Qed.
+Print Assumptions C06_engine_reopen_is_invisible.
+
+Theorem C06_engine_reopen_keeps_meaning : forall st : Engine.db, EngineAbs.abs_db (Engine.reopen_db st) = EngineAbs.abs_db st.
+Proof. exact EngineReopen.reopen_abs. Qed.
